@@ -17,6 +17,30 @@ if TYPE_CHECKING:
     )
 
 
+def _metropolis(rng: Any, exponent: float) -> bool:
+    """
+    Metropolis decision `u < min(1, exp(exponent))` for one uniform number `u` drawn
+    from `rng`. The number is always drawn, so the random stream does not depend on the
+    outcome, and `exp` is only evaluated for negative exponents: an arbitrarily
+    favourable trial (exponent above ~709.78, where `math.exp` raises `OverflowError`)
+    is accepted instead of raising.
+
+    Parameters
+    ----------
+    rng : Generator
+        The random number generator to draw the uniform number from.
+    exponent : float
+        The logarithm of the acceptance ratio.
+
+    Returns
+    -------
+    bool
+        True if the move is accepted, False otherwise.
+    """
+    u = rng.random()
+    return bool(exponent >= 0 or u < math.exp(exponent))
+
+
 class BaseCriteria(ABC):
     """
     Base class for acceptance criteria, it defines the interface for acceptance criteria
@@ -105,9 +129,7 @@ class CanonicalCriteria(BaseCriteria):
             context.atoms.get_potential_energy() - context.last_potential_energy
         )
 
-        return context.rng.random() < math.exp(
-            -energy_difference / (context.temperature * kB)
-        )
+        return _metropolis(context.rng, -energy_difference / (context.temperature * kB))
 
 
 class HamiltonianCanonicalCriteria(BaseCriteria):
@@ -135,9 +157,7 @@ class HamiltonianCanonicalCriteria(BaseCriteria):
             - context.last_kinetic_energy
         )
 
-        return context.rng.random() < math.exp(
-            -energy_difference / (context.temperature * kB)
-        )
+        return _metropolis(context.rng, -energy_difference / (context.temperature * kB))
 
 
 class IsobaricCriteria(BaseCriteria):
@@ -165,10 +185,11 @@ class IsobaricCriteria(BaseCriteria):
         current_volume = atoms.get_volume()
         old_volume = context.last_cell.volume
 
-        return context.rng.random() < math.exp(
+        return _metropolis(
+            context.rng,
             -(energy_difference + context.pressure * (current_volume - old_volume))
             / temperature
-            + (len(atoms) + 1) * np.log(current_volume / old_volume)
+            + (len(atoms) + 1) * np.log(current_volume / old_volume),
         )
 
 
@@ -213,9 +234,10 @@ class IsotensionCriteria(BaseCriteria):
             (context.external_stress - context.pressure) @ self.strain_tensor
         )
 
-        return context.rng.random() < math.exp(
+        return _metropolis(
+            context.rng,
             -(energy_difference + elastic_energy) / temperature
-            + (len(atoms) + 1) * np.log(atoms.get_volume() / context.last_cell.volume)
+            + (len(atoms) + 1) * np.log(atoms.get_volume() / context.last_cell.volume),
         )
 
 
@@ -274,5 +296,9 @@ class GrandCanonicalCriteria(BaseCriteria):
             particle_delta * context.chemical_potential - energy_difference
         ) / (context.temperature * kB)
 
-        criteria = math.exp(exponential)
-        return context.rng.random() < criteria * prefactor
+        # log space: exp(exponential) may overflow (or underflow) while the prefactor is
+        # tiny (or huge); a vanishing prefactor (deletion from an empty reservoir) is
+        # never accepted
+        log_prefactor = math.log(prefactor) if prefactor > 0 else -math.inf
+
+        return _metropolis(context.rng, exponential + log_prefactor)
